@@ -154,6 +154,24 @@ Unjudged(r, ep, j) ==
     \* of 1e-16 in a proposal falls on is a discrete decision
     \/ (Ch[1].hasCurrent /\ RLe(RAbs(RSub(RAbs(X.pwm), DeadZone(MotorOf(Ch)))), RMul(Band, RMax(DeadZone(MotorOf(Ch)), "1")))) )
 
+(* ---- traces of somebody else's load function: its returns are logged, the recorded load torque must be the return of that instant ---- *)
+LoadLogged == "load_logged" \in DOMAIN Tr /\ Tr.load_logged
+ZeroLoad == [c0 |-> "0", c1 |-> "0", c2 |-> "0", c3 |-> "0", ts |-> "0", cs |-> "0"]
+LdOf == IF LoadLogged THEN ZeroLoad ELSE Tr.load
+LoggedLoadFails(r, X, j) ==
+  IF ~LoadLogged THEN {}
+  ELSE LET evs == { e \in { r.load[x] : x \in 1..Len(r.load) } : e.at = j /\ e.el = N(Ch) } IN
+       Failing({ <<"LoadFunctionCalledOncePerInstant", Cardinality(evs) = 1>>,
+                 <<"LoadFunction", \A e \in evs : e.ret # SNull => (RIsNum(e.ret) /\ REq(e.ret, X.el[N(Ch)].Tl))>> })
+\* a stop condition that is not the harness's: only its verdicts are logged
+StopLogged(r) == "has_stop" \in DOMAIN r /\ r.has_stop
+StopLoggedFails(r) ==
+  IF ~StopLogged(r) THEN {}
+  ELSE LET v == r.stop_verdicts  n == Len(v) IN
+       Failing({ <<"StopCheckedOncePerInstant", n = r.last - r.first + (IF Fresh(r) THEN 0 ELSE 1)>>,
+                 <<"StopAtFirstHit", \A i \in 1..(n - 1) : ~v[i]>>,
+                 <<"StopOnlyWhenTrue", (n >= 1 /\ r.last < ExpectedLast(r)) => v[n]>> })
+
 (* ---- one recorded instant ---- *)
 \* P: previous instant or "none"; returns the failing clauses under the hypothesis `held'
 InstFails(r, ep, j, held) ==
@@ -166,7 +184,8 @@ InstFails(r, ep, j, held) ==
   IF ~CoreNums(X) \/ (hasPrev /\ ~CoreNums(P)) \/ ~RIsNum(pwmF) THEN {"NonFiniteSample"}
   ELSE GridFails(r, ep, j)
        \cup CoupledFails(Ch, X, Eps)
-       \cup TorqueFails(Ch, Tr.load, X, Eps)
+       \cup (TorqueFails(Ch, LdOf, X, Eps) \ (IF LoadLogged THEN {"LoadFunction"} ELSE {}))
+       \cup LoggedLoadFails(r, X, j)
        \cup DynFails(Ch, X, held, Eps)
        \cup (IF hasPrev THEN StepFails(Ch, P, X, dt, held, Eps)
              ELSE Failing({ <<"InitialPos", ClR(X.el[N(Ch)].pos, r.pre_live[N(Ch)].angular_position, Eps)>>,
@@ -206,8 +225,8 @@ RunOutcomeExpected(r) ==
    IF c = "band" THEN {"ok", "ValueError"} ELSE IF c \in {"same", "greater"} THEN {"ValueError"} ELSE {"ok"}
 RunEndFails(r, ep) ==
   Failing({
-    <<"GridCount", (r.outcome = "ok" /\ r.stop = 0) => r.last = ExpectedLast(r)>>,
-    <<"GridPrefixWithStop", (r.outcome = "ok" /\ r.stop > 0) => r.last <= ExpectedLast(r)>>,
+    <<"GridCount", (r.outcome = "ok" /\ r.stop = 0 /\ ~StopLogged(r)) => r.last = ExpectedLast(r)>>,
+    <<"GridPrefixWithStop", (r.outcome = "ok" /\ (r.stop > 0 \/ StopLogged(r))) => r.last <= ExpectedLast(r)>>,
     <<"RectOneSamplePerInstant", r.outcome = "ok" => LensOK(r, r.last)>>,
     <<"RectAdvertisedIsRecorded", AdvOK>>,
     <<"LiveEqualsLastSample", r.outcome = "ok" => LiveOK(r, ep)>>,
@@ -292,7 +311,7 @@ AbortFails(r, ep) ==
                   Failing({ <<"RuleValue@" \o ToString(idx), \A e \in evOf(idx) : RuleOK(rules[idx], X, ep, j, r.dt, e)>> : idx \in 1..Len(rules) }))
 
 RunEnd == /\ ph = "end"
-          /\ LET r == Op  ep == Ep(r)  f == RunEndFails(r, ep) \cup AbortFails(r, ep) IN
+          /\ LET r == Op  ep == Ep(r)  f == RunEndFails(r, ep) \cup AbortFails(r, ep) \cup StopLoggedFails(r) IN
              /\ Report(f, 0) /\ nf' = nf + (IF f = {} THEN 0 ELSE 1)
           /\ ph' = "op" /\ oi' = oi + 1 /\ UNCHANGED <<tid, k, lk>>
 
